@@ -1,5 +1,7 @@
 import MgpuModel.Util
 import MgpuModel.C14_Flush
+import MgpuModel.C14_Vmu
+import MgpuModel.C14_Arb
 /-! # C14 — barriers, wait counts and wavefront termination
 
 Hand-written transcription (tie H) of the timing scheduler's *internal instruction* logic
@@ -261,6 +263,98 @@ def step (c : Cfg) (s : State) : Op → State × String
     (r.1, if r.2 then "w1" else "w0")
 
 def run (c : Cfg) (s : State) (ops : List Op) : State := ops.foldl (fun s o => (step c s o).1) s
+
+/-! ## the compute unit around the scheduler: pipeline flush and the sampled-completion path
+
+`flushPipeline` (`computeunit.go`, page migration) calls `setWavesToReady` — every wavefront that is
+resident in a wavefront pool and has not ended becomes `WfReady`, its PC is **not** advanced, so the
+instruction it held is fetched, decoded and issued again — and then `Scheduler.Flush`
+(`barrierBuffer = nil; internalExecuting = nil`). `schedFlush` is that effect on the scheduler's
+state (the memory side of the flush is `C14.Flush`). Ghost: an `s_barrier` that had been issued and
+not yet passed is un-issued (`arr - 1`): the wavefront will arrive at that barrier again.
+
+With `-wf-sampling`, once the sampling engine is stable, `handleMapWGReq` does not dispatch the
+wavefronts of a work-group: each gets the state `WfSampledCompleted` and one `WfCompletionEvent` at
+the predicted time; `handleWfCompletionEvent` (`wfComp`) marks it `WfCompleted` and, when all the
+others of the group are, sends the completion message — or re-schedules the event for the next cycle
+when the port is full. The scheduler's functions only ever look at `wg.Wfs`, one slice per
+work-group, so the wavefronts of sampled groups are kept in their own list `sw` (they are in no
+pool, the scheduler never sees them); the two sides share the ToACE port (`out`, `sent`). `uni…`
+below is the same machine over ONE wavefront list; the driver runs both on every `samp` case line
+and reports a difference. -/
+
+/-- `setWavesToReady` on one wavefront -/
+def flushWf (w : Wf) : Wf :=
+  if w.inPool && w.state != .completed then
+    { w with
+      state := .ready
+      arr := if w.state == .atBarrier || (w.state == .running && w.op == 10) then w.arr - 1 else w.arr }
+  else w
+
+/-- the scheduler side of `flushPipeline`: `setWavesToReady`, then `Scheduler.Flush` -/
+def schedFlush (s : State) : State := { s with wfs := s.wfs.map flushWf, exec := [], buf := [] }
+
+/-- scheduler state + the sampled work-groups + the engine's queue of `WfCompletionEvent`s -/
+structure XState where
+  s : State
+  /-- wavefronts of work-groups that are not simulated (`WfSampledCompleted` → `WfCompleted`) -/
+  sw : List Wf
+  /-- scheduled and not yet handled `WfCompletionEvent`s (wavefront ids) -/
+  evq : List Nat
+deriving Repr, DecidableEq
+
+inductive XOp where
+  | base (o : Op)
+  /-- `flushPipeline` -/
+  | flush
+  /-- the engine handles the scheduled `WfCompletionEvent` of wavefront `i` -/
+  | fire (i : Nat)
+deriving Repr, DecidableEq
+
+/-- `handleWfCompletionEvent` on a sampled work-group: `wfComp` over the group lists `sw`, the port
+    and the log are the compute unit's -/
+def fireS (c : Cfg) (x : XState) (i : Nat) : XState × Bool :=
+  let r := wfComp c { x.s with wfs := x.sw } i
+  ({ s := { x.s with out := r.1.out, sent := r.1.sent }
+     sw := r.1.wfs
+     evq := x.evq.erase i ++ (if r.2 then [i] else []) }, r.2)
+
+def xstep (c : Cfg) (x : XState) : XOp → XState × String
+  | .base o => let r := step c x.s o; ({ x with s := r.1 }, r.2)
+  | .flush => ({ x with s := schedFlush x.s }, "f")
+  | .fire i =>
+    if x.evq.contains i then
+      let r := fireS c x i
+      (r.1, if r.2 then "e1" else "e0")
+    else (x, "e-")
+
+def xrun (c : Cfg) (x : XState) (ops : List XOp) : XState := ops.foldl (fun x o => (xstep c x o).1) x
+
+/-- the same machine over one wavefront list (what a transcription with a single global list of
+    wavefronts gives): `uni` = all wavefronts in id order -/
+structure UState where
+  u : State
+  evq : List Nat
+deriving Repr, DecidableEq
+
+def ustep (c : Cfg) (x : UState) : XOp → UState × String
+  | .base o => let r := step c x.u o; ({ x with u := r.1 }, r.2)
+  | .flush => ({ x with u := schedFlush x.u }, "f")
+  | .fire i =>
+    if x.evq.contains i then
+      let r := wfComp c x.u i
+      ({ u := r.1, evq := x.evq.erase i ++ (if r.2 then [i] else []) }, if r.2 then "e1" else "e0")
+    else (x, "e-")
+
+/-- merge two id-sorted wavefront lists -/
+def mergeWfs : List Wf → List Wf → List Wf
+  | [], b => b
+  | a, [] => a
+  | x :: a, y :: b => if x.id ≤ y.id then x :: mergeWfs a (y :: b) else y :: mergeWfs (x :: a) b
+termination_by a b => a.length + b.length
+
+/-- all wavefronts of the compute unit in id order -/
+def XState.all (x : XState) : List Wf := mergeWfs x.s.wfs x.sw
 
 /-! ## the emulator: `runWG` / `runWfUntilBarrier` / `resolveBarrier`
 
@@ -547,12 +641,65 @@ def handleGhost (toks : List String) (ops : List String) : String :=
     outstanding vector access and one more outstanding scalar (LGKM) access, unbounded. -/
 def issueFlat (vm lgkm : Nat) : Nat × Nat := (vm + 1, lgkm + 1)
 
+/-! ### `c14 samp ace=<k> wfs=<wg:state:op:lk:vm:osc:ovc,...> ; op ; …`
+
+Wavefronts given in state `S` belong to sampled work-groups: they are in no pool and each has one
+`WfCompletionEvent` scheduled (in id order). Ops: those of `abs`, `fl` (`flushPipeline`), `fe i`
+(the engine handles the event of wavefront `i`). Answer: per op `<result>/<state letters>` (all
+wavefronts in id order), then the final state and the event queue; `split=ok` says that the machine
+with one global wavefront list agreed after every op. -/
+
+def parseXOp (toks : List String) : Option XOp :=
+  match toks with
+  | ["fl"] => some .flush
+  | ["fe", i] => do pure (.fire (← i.toNat?))
+  | _ => (parseOp toks).map .base
+
+def xletters (l : List Wf) : String := String.ofList (l.map (fun w => charOfState w.state))
+
+def xdump (s : State) (all : List Wf) (evq : List Nat) : String :=
+  "buf=" ++ idsStr s.buf ++ " exec=" ++ idsStr s.exec ++ " wfs=" ++ joinWith "," (all.map dumpWf) ++
+  " out=" ++ (if s.out.isEmpty then "-" else
+    joinWith "." (s.out.map (fun m => match m with | some g => toString g | none => "f"))) ++
+  " evq=" ++ idsStr evq
+
+def handleSamp (toks : List String) (ops : List String) : String :=
+  match parseState toks with
+  | none => "bad-cfg"
+  | some s0 =>
+    let sw := (s0.wfs.filter (fun w => w.state == .sampled)).map (fun w => { w with inPool := false })
+    let nw := s0.wfs.filter (fun w => w.state != .sampled)
+    let evq := sw.map (·.id)
+    let x0 : XState := { s := { s0 with wfs := nw }, sw := sw, evq := evq }
+    let u0 : UState :=
+      { u := { s0 with wfs := s0.wfs.map (fun w => if w.state == .sampled then { w with inPool := false } else w) }
+        evq := evq }
+    let r := ops.foldl (fun (acc : XState × UState × Bool × Array String) o =>
+      let (x, u, ok, out) := acc
+      if x.s.fault then acc else
+      match parseXOp (words o) with
+      | none => (x, u, ok, out.push "x")
+      | some op =>
+        let (x', tok) := xstep Cfg.cur x op
+        let (u', tok') := ustep Cfg.cur u op
+        let same := tok == tok' && x'.all == u'.u.wfs && x'.s.exec == u'.u.exec && x'.s.buf == u'.u.buf &&
+          x'.s.out == u'.u.out && x'.s.sent == u'.u.sent && x'.evq == u'.evq && x'.s.fault == u'.u.fault
+        if x'.s.fault then (x', u', ok && same, out.push "fault:never")
+        else (x', u', ok && same, out.push (tok ++ "/" ++ xletters x'.all))) (x0, u0, true, #[])
+    let (x, _, ok, out) := r
+    let tail := if ok then "split=ok" else "split=DIFF"
+    if x.s.fault then joinWith " " (out.toList ++ [tail])
+    else joinWith " " (out.toList ++ [xdump x.s x.all x.evq, tail])
+
 def handle (line : String) : String :=
   match splitTrim line ";" with
   | [] => "bad"
   | first :: ops =>
     let toks := words first
     if toks.contains "flush" then Flush.handle toks ops else
+    if toks.contains "samp" then handleSamp toks ops else
+    if toks.contains "vmu" then Vmu.handle toks ops else
+    if toks.contains "arb" then Arb.handle toks else
     if toks.contains "issue" then
       match kvNat? toks "v", kvNat? toks "s" with
       | some v, some sc => let r := issueFlat v sc; s!"ok=true v={r.1} s={r.2}"
@@ -566,6 +713,10 @@ def handle (line : String) : String :=
       let r := ops.foldl (fun (acc : State × Array String) o =>
         let s := acc.1
         if s.fault then acc else
+        if words o == ["fl"] then
+          let s' := schedFlush s
+          (s', acc.2.push ("f/" ++ letters s'))
+        else
         match parseOp (words o) with
         | none => (s, acc.2.push "x")
         | some op =>
